@@ -14,6 +14,7 @@ RULE = ("every identity of the statement x every combination of operand lengths 
         "rational evaluations), plus numeric draws (ints, rationals, floats, zeros, repeated components) per combination, plus "
         "refusal cases (different CoordinateSystem objects, non-Cartesian operands, >3 components). non-trivial = at least "
         "one operand has a component; distinct = (identity, lengths, draw).")
+RULE = RULE + ' Also: refusal for systems of another kind declared over the same inner SymPy system.'
 ASSUMPTIONS = ["SymPy expand/Rational arithmetic", "missing components count as zero (statement)"]
 MIN_REACH = {"quick": {"identity_checked": 3000, "length_combos_2": 16, "length_combos_3": 64, "refusal_checked": 5000},
              "thorough": {"identity_checked": 30000, "length_combos_2": 16, "length_combos_3": 64, "refusal_checked": 5000}}
